@@ -1,11 +1,12 @@
 /-
   Property C16 — the intersection point of two crossing edges is accurate and order-independent.
 
-  Objects: `S2.EdgeNum` (line-by-line model of s2/edge_crossings.go AFTER the repairs F1–F4: `compareEdges`,
-  `intersectionStable`, `intersectionStableSorted` with the `Norm2 < DBL_MIN` guard, `projection`, `intersectionExact` incl. the
-  big.Float signed zero, the power-of-two scaling in `PreciseVector.Vector()` and the lexicographic-minimum collinear rule,
-  `Intersection` with the zero canonicalisation at its exit), tied to the Go code by the oracle (op `isect`: bit-exact on all 8
-  argument permutations, the stable and the exact kernel separately).
+  Objects: `S2.EdgeNum` (line-by-line model of s2/edge_crossings.go AFTER the repairs F1–F4 and D50: `compareEdges`,
+  `canonicalEdges` (= `canonArgs`), `intersectionStable`, `intersectionStableSorted` with the `Norm2 < DBL_MIN` guard, `projection`,
+  `intersectionExact` incl. the big.Float signed zero, the power-of-two scaling in `PreciseVector.Vector()` and the
+  lexicographic-minimum collinear rule, `Intersection` with the canonical argument order at its entry and the zero canonicalisation
+  at its exit; `intersectionOld` = `Intersection` before repair D50), tied to the Go code by the oracle (op `isect`: bit-exact on
+  all 8 argument permutations, the stable and the exact kernel separately).
 
   PROVED (all inputs, explicit decidable hypotheses):
    (1) `compareEdges` on finite points is the comparison of the exact vectors          compareEdges_eq_I
@@ -13,23 +14,25 @@
        compares the lexicographically smaller endpoints                                   compareEdgesI_iff
        asymmetric, total, transitive on edges with DIFFERENT smaller endpoints             compareEdgesI_asymm_total, compareEdgesI_trans
        NOT a strict order on all edges (same smaller endpoint: true both ways; remark)     compareEdges_not_asymmetric
-   (2) the tuple handed to the numeric kernel by `intersectionStable` does not depend on the order of the two edges;
-       reversing an edge only reverses it inside the tuple           aFirst_swap, stableArgs_swap(_fin), aFirst_reverse_a/b, stableArgs_reverse_a/b
-   (3) ORDER INDEPENDENCE = BIT IDENTITY of the selection logic of the repaired `Intersection` (edge sorting, stable / exact
-       choice, hemisphere correction, zero canonicalisation at the exit): for kernels that are sign-symmetric UP TO THE SIGN OF
-       ZERO COORDINATES (`KernelSym`, stated with `ZEq`) all 8 argument permutations give the SAME BITS on every `GoodInput`
+   (2) the tuple produced by the edge sorting (`stableArgs`: longer edge first, `compareEdges` tie-break) does not depend on the
+       order of the two edges; reversing an edge only reverses it inside the tuple
+                                                     aFirst_swap, stableArgs_swap(_fin), aFirst_reverse_a/b, stableArgs_reverse_a/b
+   (3) PRE-REPAIR CODE (before D50; regression witnesses, continued in C16_Sym.lean): ORDER INDEPENDENCE = BIT IDENTITY of the
+       selection logic of the old `Intersection` (`selection`: stable kernel on `stableArgs`, exact kernel and vertex sum on the
+       caller's order): for kernels that are sign-symmetric UP TO THE SIGN OF ZERO COORDINATES (`KernelSym`, stated with `ZEq`) all
+       8 argument permutations give the SAME BITS on every `GoodInput`
                                               select_aux, selection_reverse_a/b, selection_swap, selection_order_independent
-       `Intersection` of the model is this selection applied to the modelled kernels        intersection_is_selection
+       the old `Intersection` of the model is this selection applied to the modelled kernels   intersectionOld_is_selection
+       THE REPAIRED CODE needs none of this: S2Proofs.Properties.C16_Canonical proves `BitIdentityClaim` (below) in full.
    (4) the collinear rule (repair F3) returns the minimum of the qualifying endpoints and is invariant under every
        permutation of the candidate list                                                    ofV3_pickStep, ofV3_pickMin, pickMin_perm
   REGRESSION EXAMPLES (`decide +kernel` on the repaired model; the same inputs REFUTED the claims before the repairs):
    F1 NaN/Inf for tiny edges → unit length; F2 endpoint of the long edge → within 8·2^-53; F3 collinear swap → same bits;
-   F4 sign of zero → same bits.
+   F4 sign of zero → same bits.  (D50: C16_Canonical.lean, `d50_repaired` / `d50_old_order_dependent`.)
   KNOWN, NOT REPAIRED: F5 (both edges nearly antipodal: the antipode is returned)          accuracyClaim_false
-  PARTIAL (stated as `def … : Prop`, judged by the oracle with exact rational arithmetic, not proved):
-   `BitIdentityClaim`, `GoEqualityClaim`, `UnitLengthClaim`, `AccuracyClaim`; that the REAL float kernels satisfy `KernelSym`
-   (IEEE arithmetic is sign-symmetric except for exact zeros — S2Proofs.F64Sym proves the per-operation facts; the composition
-   over the whole kernel is exercised by the oracle on every line, not proved).
+  STATED HERE: `BitIdentityClaim` (PROVED in C16_Canonical.lean: `bitIdentityClaim`), `GoEqualityClaim` (there: `goEquality_of_fin`,
+   for NaN-free results), `BitIdentityClaimOld` / `GoEqualityClaimOld` (the pre-repair code; REFUTED in C16_Sym.lean);
+  PARTIAL (stated as `def … : Prop`, judged by the oracle with exact rational arithmetic, not proved): `UnitLengthClaim`, `AccuracyClaim`.
 -/
 import Mathlib.Order.Defs.LinearOrder
 import Mathlib.Order.Lattice
@@ -312,18 +315,20 @@ theorem stableArgs_reverse_b (a0 a1 b0 b1 : V3) (ha0 : Fin3 a0) (ha1 : Fin3 a1) 
 
 /-! ## (3) order independence of the selection logic -/
 
-/-- `Intersection` with the two numeric kernels and the hemisphere correction as parameters; the exit
-    `canonZero` (`pt.Add(r3.Vector{})`: every −0 coordinate becomes +0) is part of the selection logic -/
+/-- `Intersection` AS IT WAS BEFORE REPAIR D50 (the stable kernel on `stableArgs`, the exact kernel and the vertex sum on the
+    caller's order) with the two numeric kernels and the hemisphere correction as parameters; the exit
+    `canonZero` (`pt.Add(r3.Vector{})`: every −0 coordinate becomes +0) is part of the selection logic.  The repaired
+    `Intersection` hands ONE canonical tuple to everything and needs no `KernelSym`: S2Proofs.Properties.C16_Canonical. -/
 def selection (K : V3 → V3 → V3 → V3 → Option V3) (E : V3 → V3 → V3 → V3 → V3) (sc : V3 → V3 → V3)
     (a0 a1 b0 b1 : V3) : V3 :=
   let t := stableArgs a0 a1 b0 b1
   let pt := (K t.1 t.2.1 t.2.2.1 t.2.2.2).getD (E a0 a1 b0 b1)
   canonZero (sc pt (sum4 a0 a1 b0 b1))
 
-/-- the model's `Intersection` is the selection logic applied to the modelled kernels -/
-theorem intersection_is_selection (a0 a1 b0 b1 : V3) :
-    intersection a0 a1 b0 b1 = selection intersectionStableSorted intersectionExact signCorrect a0 a1 b0 b1 := by
-  unfold intersection intersectionG intersectionStableG selection
+/-- the PRE-REPAIR (D50) `Intersection` of the model is this selection logic applied to the modelled kernels -/
+theorem intersectionOld_is_selection (a0 a1 b0 b1 : V3) :
+    intersectionOld a0 a1 b0 b1 = selection intersectionStableSorted intersectionExact signCorrect a0 a1 b0 b1 := by
+  unfold intersectionOld intersectionGOld intersectionStableGOld selection
   dsimp only
   cases intersectionStableSorted (stableArgs a0 a1 b0 b1).1 (stableArgs a0 a1 b0 b1).2.1 (stableArgs a0 a1 b0 b1).2.2.1
     (stableArgs a0 a1 b0 b1).2.2.2 <;> rfl
@@ -555,11 +560,22 @@ def BitIdentityClaim : Prop := ∀ a0 a1 b0 b1, InContract a0 a1 b0 b1 →
   intersection a1 a0 b0 b1 = intersection a0 a1 b0 b1 ∧ intersection a0 a1 b1 b0 = intersection a0 a1 b0 b1 ∧
   intersection b0 b1 a0 a1 = intersection a0 a1 b0 b1
 
+/-- the same claim for the code BEFORE repair D50 (refuted in C16_Sym: `bitIdentityClaimOld_false`,
+    `bitIdentityOld_violated_in_contract`) -/
+def BitIdentityClaimOld : Prop := ∀ a0 a1 b0 b1, InContract a0 a1 b0 b1 →
+  intersectionOld a1 a0 b0 b1 = intersectionOld a0 a1 b0 b1 ∧ intersectionOld a0 a1 b1 b0 = intersectionOld a0 a1 b0 b1 ∧
+  intersectionOld b0 b1 a0 a1 = intersectionOld a0 a1 b0 b1
+
 /-- the weaker claim the Go doc comment makes: equal under Go's `==` (which identifies +0 and −0) -/
 def GoEqualityClaim : Prop := ∀ a0 a1 b0 b1, InContract a0 a1 b0 b1 →
   V3.feq (intersection a1 a0 b0 b1) (intersection a0 a1 b0 b1) = true ∧
   V3.feq (intersection a0 a1 b1 b0) (intersection a0 a1 b0 b1) = true ∧
   V3.feq (intersection b0 b1 a0 a1) (intersection a0 a1 b0 b1) = true
+
+def GoEqualityClaimOld : Prop := ∀ a0 a1 b0 b1, InContract a0 a1 b0 b1 →
+  V3.feq (intersectionOld a1 a0 b0 b1) (intersectionOld a0 a1 b0 b1) = true ∧
+  V3.feq (intersectionOld a0 a1 b1 b0) (intersectionOld a0 a1 b0 b1) = true ∧
+  V3.feq (intersectionOld b0 b1 a0 a1) (intersectionOld a0 a1 b0 b1) = true
 
 /-- C16 "the returned intersection point is unit length" -/
 def UnitLengthClaim : Prop := ∀ a0 a1 b0 b1, InContract a0 a1 b0 b1 → UnitPt (intersection a0 a1 b0 b1)
@@ -627,9 +643,9 @@ theorem accuracyClaim_false : ¬ AccuracyClaim := by
   revert this
   decide +kernel
 
-/-- PARTIAL (what is proved, see (3)): on good inputs and for kernels that are sign-symmetric up to the sign
-    of zeros the 8 orders give the same bits.  That the REAL kernels are, the unit length and the 8·2^-53 bound
-    are judged by the oracle on every run, not proved. -/
+/-- PRE-REPAIR selection logic (see (3)): on good inputs and for kernels that are sign-symmetric up to the sign
+    of zeros the 8 orders give the same bits.  (For the repaired code: `bitIdentityClaim` in C16_Canonical.lean.)  The unit
+    length and the 8·2^-53 bound are judged by the oracle on every run, not proved. -/
 theorem order_independence_partial {K : V3 → V3 → V3 → V3 → Option V3} {E : V3 → V3 → V3 → V3 → V3}
     {sc : V3 → V3 → V3} {nneg : V3 → V3} (H : KernelSym K E sc nneg) {a0 a1 b0 b1 : V3}
     (G : GoodInput a0 a1 b0 b1) :
